@@ -11,30 +11,6 @@ From SV Require Import Proofs.AssemblerProofs Proofs.TcpRecvBase Proofs.TcpRecvW
 (* reset and the calls built on it                                                           *)
 (* ---------------------------------------------------------------------------------------- *)
 
-Lemma win_shift_nonneg c : 0 <= tcp_win_shift_for c.
-Proof. unfold tcp_win_shift_for, sat_sub. lia. Qed.
-
-Lemma reset_unsynced s :
-  rb_wf (s_rx_buffer s) -> rb_cap (s_rx_buffer s) <= p30 -> rx_unsynced (tcp_reset s).
-Proof.
-  intros Hwf Hcap. unfold rx_unsynced, misc_ok, lwb, tcp_reset. rproj.
-  pose proof (rb_clear_wf _ Hwf) as Hwf'. pose proof Hwf as (Hl & _).
-  split; [exact Hwf'|]. cbn [rb_clear rb_cap rb_len]. split; [exact Hcap|].
-  split; [reflexivity|]. split; [reflexivity|]. split; [reflexivity|].
-  split; [|exact I]. split; [lia|]. split; [apply win_shift_nonneg|].
-  unfold shl. lia.
-Qed.
-
-Lemma unsynced_state_change s s' :
-  rxv_eq s' s -> match s_state s' with Closed | Listen | SynSent => True | _ => False end ->
-  rx_unsynced s -> rx_unsynced s'.
-Proof.
-  intros (E1 & E2 & E3 & E4 & E5 & E6 & E7) Hst (H1 & H2 & H3 & H4 & H5 & H6 & _).
-  unfold rx_unsynced, misc_ok, lwb in *. rewrite E1, E2, E3, E6, E7.
-  split; [exact H1|]. split; [exact H2|]. split; [exact H3|]. split; [exact H4|].
-  split; [exact H5|]. split; [exact H6 | exact Hst].
-Qed.
-
 Lemma rb_wf_of_synced S F have irs c s :
   rx_synced S F have irs c s -> rb_wf (s_rx_buffer s) /\ rb_cap (s_rx_buffer s) <= p30.
 Proof. intros ((Hwf & Hcap & _) & _). split; assumption. Qed.
